@@ -18,6 +18,7 @@
 package sidecar
 
 import (
+	"bytes"
 	"fmt"
 	"io/ioutil"
 	"net/url"
@@ -41,6 +42,7 @@ import (
 	"github.com/pkg/errors"
 	config_util "github.com/prometheus/common/config"
 	"gopkg.in/yaml.v2"
+	yamlv3 "gopkg.in/yaml.v3"
 )
 
 var (
@@ -179,30 +181,72 @@ func (i *Injector) marshal(cfg *config.Config) ([]byte, error) {
 	}
 
 	// the config library prints every secret as "<secret>": take the sections kvass does not
-	// rewrite (everything but scrape_configs) from the origin config, which has them as written
-	var out, origin yaml.MapSlice
-	if err := yaml.Unmarshal(gen, &out); err != nil {
+	// rewrite (everything but scrape_configs) from the origin config, which has them as written.
+	// They are moved as document nodes, so that every scalar stays as it was written
+	// (a label value 0755, 1.10 or yes must not come out as 493, 1.1 or true)
+	var out, origin yamlv3.Node
+	if err := yamlv3.Unmarshal(gen, &out); err != nil {
 		return nil, errors.Wrapf(err, "unmarshal generated config")
 	}
-	if err := yaml.Unmarshal(i.curCfg.RawContent, &origin); err != nil {
+	if err := yamlv3.Unmarshal(i.curCfg.RawContent, &origin); err != nil {
 		return nil, errors.Wrapf(err, "unmarshal origin config")
 	}
-	for k, section := range out {
-		if section.Key == "scrape_configs" {
-			continue
-		}
-		for _, o := range origin {
-			if o.Key == section.Key {
-				out[k].Value = o.Value
+	outMap, originMap := topLevelMapping(&out), topLevelMapping(&origin)
+	if outMap != nil && originMap != nil {
+		for k := 0; k+1 < len(outMap.Content); k += 2 {
+			key := outMap.Content[k].Value
+			if key == "scrape_configs" {
+				continue
+			}
+			for o := 0; o+1 < len(originMap.Content); o += 2 {
+				if originMap.Content[o].Value == key {
+					outMap.Content[k+1] = withoutAliases(originMap.Content[o+1])
+				}
 			}
 		}
 	}
 
-	data, err := yaml.Marshal(out)
-	if err != nil {
+	buf := &bytes.Buffer{}
+	enc := yamlv3.NewEncoder(buf)
+	enc.SetIndent(2)
+	if err := enc.Encode(&out); err != nil {
 		return nil, errors.Wrapf(err, "marshal config failed")
 	}
-	return data, nil
+	if err := enc.Close(); err != nil {
+		return nil, errors.Wrapf(err, "marshal config failed")
+	}
+	return buf.Bytes(), nil
+}
+
+// topLevelMapping returns the mapping node of a yaml document, nil if the document is not a mapping
+func topLevelMapping(doc *yamlv3.Node) *yamlv3.Node {
+	n := doc
+	if n.Kind == yamlv3.DocumentNode && len(n.Content) == 1 {
+		n = n.Content[0]
+	}
+	if n.Kind != yamlv3.MappingNode {
+		return nil
+	}
+	return n
+}
+
+// withoutAliases returns a copy of the node in which every alias is replaced by what it stands for
+// and no anchor is left: the anchor may be defined in a section that is not copied
+func withoutAliases(n *yamlv3.Node) *yamlv3.Node {
+	if n == nil {
+		return nil
+	}
+	if n.Kind == yamlv3.AliasNode {
+		return withoutAliases(n.Alias)
+	}
+	c := *n
+	c.Anchor = ""
+	c.Alias = nil
+	c.Content = make([]*yamlv3.Node, 0, len(n.Content))
+	for _, child := range n.Content {
+		c.Content = append(c.Content, withoutAliases(child))
+	}
+	return &c
 }
 
 func (i *Injector) inject() (err error) {
